@@ -288,7 +288,9 @@ func init() {
 				mk = "rehashed-flip-data"
 			case k < 93:
 				// correctly hashed, random type byte and random body
-				mut = mut[:discover.HeadSizeVerif+1+c.R.Intn(60)]
+				nm := make([]byte, discover.HeadSizeVerif+1+c.R.Intn(60))
+				copy(nm, mut)
+				mut = nm
 				c.R.Read(mut[discover.HeadSizeVerif:])
 				copy(mut, crypto.Keccak256(mut[32:]))
 				mk = "rehashed-garbage"
